@@ -422,6 +422,9 @@ func (e *Env) tr(x ast.Expr) Term {
 		if b.T != nil {
 			if mt, ok := b.T.Underlying().(*types.Map); ok {
 				ks, vs := u.ss.sortOf(mt.Key()), u.ss.sortOf(mt.Elem())
+				if i.Sort != ks && i.Sort != "Nil" {
+					fail("map index has sort %s, the map is keyed by %s", i.Sort, ks)
+				}
 				vals, pres := u.mheap(e.s, ks, vs)
 				present := fmt.Sprintf("(and (not (= %s 0)) (select (select %s %s) %s))", b.S, pres.S, b.S, i.S)
 				return Term{S: fmt.Sprintf("(ite %s (select (select %s %s) %s) %s)", present, vals.S, b.S, i.S, u.ss.zero(mt.Elem()).S), Sort: vs, T: mt.Elem()}
@@ -650,6 +653,10 @@ func (e *Env) callExpr(n *ast.CallExpr) Term {
 			fail("mapHas on non-map")
 		}
 		ks, vs := u.ss.sortOf(mt.Key()), u.ss.sortOf(mt.Elem())
+		if k.Sort != ks && k.Sort != "Nil" {
+			// the contract was written for another key type: a binding failure, not an ill-sorted query for the solver
+			fail("mapHas: key has sort %s, the map is keyed by %s", k.Sort, ks)
+		}
 		_, pres := u.mheap(e.s, ks, vs)
 		return Term{S: fmt.Sprintf("(and (not (= %s 0)) (select (select %s %s) %s))", m.S, pres.S, m.S, k.S), Sort: "Bool"}
 	}
